@@ -262,6 +262,10 @@ def mechanism(case, has_nan, got, meas, labels):
 
 def run_case(ctx, case, build):
     rng = ctx.rng
+    if os.environ.get('VERIF_C15_SKIP_KNOWN_CRASH') == '1' and case['nan'] != 'none' and case['prec'] is not None \
+            and case['method'] in ('mahalanobis', 'crossnobis'):
+        ctx.count('skipped_known_crash_class')
+        return
     meas = with_nan(rng, case) if case['nan'] != 'none' else np.array(case['meas'])
     if case['nan'] != 'none' and case['vk'] in ('int', 'posint'):
         meas = meas.astype(float)
@@ -504,34 +508,56 @@ def run(ctx):
             ctx.count('sanitizer_unavailable')
             ctx.notes.append('sanitizer build unavailable: ' + str(b['reason']))
             return
-        log_prefix = os.path.join(b['scratch'], 'asan.log')
-        state = os.path.join(b['scratch'], 'state.json')
-        e = sanitize.sanitizer_env(b['scratch'], log_prefix)
-        e['VERIF_C15_SANITIZED'] = '1'
-        cmd = [env.PY, os.path.join(env.VERIF, 'run_check.py'), 'C15', '--tier', ctx.tier, '--seed', str(ctx.seed * 1000 + ctx.shard),
-               '--shard', '0', '--nshards', '1', '--state-out', state]
-        res = subprocess.run(cmd, env=e, capture_output=True, text=True, timeout=TIME_BUDGET[ctx.tier] * 2)
-        if not os.path.exists(state):
+
+        def sanitized_run(tag, skip_known_crash):
+            log_prefix = os.path.join(b['scratch'], f'asan-{tag}.log')
+            state = os.path.join(b['scratch'], f'state-{tag}.json')
+            e = sanitize.sanitizer_env(b['scratch'], log_prefix)
+            e['VERIF_C15_SANITIZED'] = '1'
+            if skip_known_crash:
+                e['VERIF_C15_SKIP_KNOWN_CRASH'] = '1'
+            cmd = [env.PY, os.path.join(env.VERIF, 'run_check.py'), 'C15', '--tier', ctx.tier,
+                   '--seed', str(ctx.seed * 1000 + ctx.shard), '--shard', '0', '--nshards', '1', '--state-out', state]
+            try:
+                res = subprocess.run(cmd, env=e, capture_output=True, text=True, timeout=TIME_BUDGET[ctx.tier] * 2)
+                tail = (res.stdout + res.stderr)[-300:]
+            except subprocess.TimeoutExpired:
+                tail = 'watchdog'
+            st = json.load(open(state)) if os.path.exists(state) else None
+            return st, sanitize.parse_reports(log_prefix), tail
+
+        st, reports, tail = sanitized_run('a', False)
+        if st is None:
+            # the sanitized process died (a deadly signal is itself a report, parsed below); repeat without the input
+            # class of the known crash (F47/F48: mahalanobis kernel with NaN channels) so the rest is still observed
+            ctx.count('sanitized_process_died')
+            ctx.notes.append('sanitized process died: ' + tail)
+            st, reports2, tail = sanitized_run('b', True)
+            reports = reports + reports2
+        if st is None:
             ctx.count('sanitizer_unavailable')
-            ctx.notes.append(f'sanitized run produced no state (rc={res.returncode}): {(res.stdout + res.stderr)[-600:]}')
-            return
-        st = json.load(open(state))
-        for k, v in st['counters'].items():
-            ctx.count(k if not k.startswith('check:') else k, v)
-        ctx.evaluations += st['evaluations']
-        for k, v in st['sigs'].items():
-            ctx.sigs[k] = ctx.sigs.get(k, 0) + v
-        for vio in st['violations']:
-            ctx.violations.append(vio)
-        for k, v in st['vio_by_sig'].items():
-            ctx.vio_by_sig[k] = ctx.vio_by_sig.get(k, 0) + v
-        ctx.notes.extend(st['notes'])
-        reports = sanitize.parse_reports(log_prefix)
+            ctx.notes.append('second sanitized run produced no state either: ' + tail)
+        else:
+            for k, v in st['counters'].items():
+                ctx.count(k, v)
+            ctx.evaluations += st['evaluations']
+            for k, v in st['sigs'].items():
+                ctx.sigs[k] = ctx.sigs.get(k, 0) + v
+            for vio in st['violations']:
+                ctx.violations.append(vio)
+            for k, v in st['vio_by_sig'].items():
+                ctx.vio_by_sig[k] = ctx.vio_by_sig.get(k, 0) + v
+            ctx.notes.extend(st['notes'])
         ctx.count('sanitizer_log_parsed')
         ctx.count('sanitizer_report_blocks', sum(r['count'] for r in reports))
         ctx.notes.append('sanitizer reports: ' + json.dumps([{k: r[k] for k in ('kind', 'function', 'access', 'count')}
                                                              for r in reports]))
+        seen = set()
         for r in reports:
+            key = (r['kind'], str(r['function']), r['access'])
+            if key in seen:
+                continue
+            seen.add(key)
             ctx.fail('sanitizer', dict(build='asan', kind=r['kind'], function=str(r['function']), access=r['access']),
                      f"{r['kind']} ({r['access']}) in {r['function']} at {r['location']}, {r['count']} report block(s)",
                      dict(report=r['text']))
